@@ -5,6 +5,10 @@ import Dashu.Proofs.Text.FloatPad
 import Dashu.Proofs.Text.ConvDiv
 import Dashu.Proofs.Text.ConvDigits
 import Dashu.Proofs.Text.FloatSci
+import Dashu.Proofs.Text.FloatSciParse
+import Dashu.Proofs.Text.DisplayLink
+import Dashu.Proofs.Text.FloatTie
+import Dashu.Proofs.Text.DisplayText
 /-
   C08 — Float text I/O is lossless; base/precision changes are faithfully rounded.   **partial**
 
@@ -281,10 +285,19 @@ theorem convert_base_exact_paths_contract (W B NB : Nat) (hB : 2 ≤ B) (hNB : 2
 /-- **never more than one digit beyond the target precision**: whatever `convert_base` returns without
     going through `ln`/`exp` (different bases) has at most `p + 1` digits of the new base (`p` on the
     rounding paths; the extra digit only from `repr_div`) -/
-theorem convert_base_result_digits (W B NB : Nat) (hB : 2 ≤ B) (hNB : 2 ≤ NB) (hne : NB ≠ B) (m : Mode)
+theorem convert_base_result_digits (W B NB : Nat) (hB : 2 ≤ B) (hNB : 2 ≤ NB) (m : Mode)
     (p : Nat) (hp : 1 ≤ p) (r : FRepr) (res : Rounded FRepr) (h : convertBase W B NB m p r = .ok res) :
     res.1.digits NB ≤ p + 1 :=
-  convertBase_digits_le W B NB hB hNB hne m p hp r res h
+  convertBase_digits_le_all W B NB hB hNB m p hp r res h
+
+/-- the same-base branch (`with_base_and_precision::<B>(p)`): the model — the behaviour the property REQUIRES —
+    rounds to the target precision like every other branch (the code at fa3b7b8 returns the operand
+    unrounded: recorded finding); unchanged and `Exact` when the digits fit -/
+theorem convert_base_same_base (W B : Nat) (m : Mode) (p : Nat) (r : FRepr) :
+    convertBase W B B m p r = .ok (reprRound B m coarseNone p (FRepr.new B r.signif r.exp)) ∧
+    ((FRepr.new B r.signif r.exp).digits B ≤ p →
+      reprRound B m coarseNone p (FRepr.new B r.signif r.exp) = (FRepr.new B r.signif r.exp, none)) := by
+  refine ⟨by unfold convertBase; simp, fun h => exact_when_fits B m p _ h⟩
 
 /-- the precision `with_base` hands on when neither base is a power of the other (as of fix fa3b7b8:
     the exact `(B^p).ilog(NewB)`) is the documented maximum -/
@@ -369,6 +382,175 @@ theorem scientific_text_denotes (B : Nat) (hB : 2 ≤ B) (m : Mode) (prec : Opti
   ⟨fmtSciCore_denotes B hB m prec upper useHex hhex marker r, (sciShown_sign B hB m prec useHex r).1,
     (sciShown_sign B hB m prec useHex r).2, rfl⟩
 
+/-- **scientific text, read back** (`{:e}`, `{:E}`, `{:b}`, `{:o}`, `{:x}`, `{:X}`, with or without `+`, with or
+    without a precision; no width): whenever the marker printed is a scale marker of the base
+    (`scientific_markers_accepted`) and the printed exponent `sciExp` is an `isize`, `from_str_native` of the
+    same base accepts the text, and the float read is EXACTLY the value shown — the number itself without
+    a precision (round trip), its rounding to `p0 + 1` significant digits under the mode with one
+    (`scientific_rounding`); its precision is the number of digits shown (`×4` for hexadecimal digits) -/
+theorem scientific_print_parse (W : Nat) (hW : 36 < 2 ^ W) (B : Nat) (hB : validRadix B = true) (m : Mode)
+    (prec : Option Nat) (upper useHex : Bool) (hhex : useHex = true → B = 2) (marker : Nat)
+    (hmk : isScaleMarker B useHex marker = true) (plus : Bool) (r : FRepr)
+    (hlo : -(2 ^ 63 : Int) ≤ sciExp B m prec upper useHex r) (hhi : sciExp B m prec upper useHex r < (2 ^ 63 : Int)) :
+    ∃ (r' : FRepr) (n : Nat),
+      fromStrNative W B (fmtSciG B m { plus := plus } prec upper useHex marker r) = .ok (r', n) ∧
+      r'.toRat B = sciShown B m prec useHex r ∧
+      (prec = none → r'.toRat B = r.toRat B) ∧
+      (∀ p0, prec = some p0 → n = (p0 + 1) * sciK useHex) := by
+  obtain ⟨r', n, h1, h2, h3⟩ := fmtSciG_parse W hW B hB m prec upper useHex hhex marker hmk plus r hlo hhi
+  exact ⟨r', n, h1, h2, fun hp => by rw [h2, hp]; rfl, h3⟩
+
+/-- the markers the formatting traits print ARE scale markers of their base: `e`/`E` (base 10) and `@`
+    (every other base) for `LowerExp`/`UpperExp`; `b` for `Binary`; `o` for `Octal`; `h` for `LowerHex` /
+    `UpperHex` of base 16; `p` behind the `0x` prefix for those of base 2 -/
+theorem scientific_markers_accepted (B : Nat) (upper : Bool) :
+    isScaleMarker B false (if B = 10 then (if upper then 69 else 101) else 64) = true ∧
+    isScaleMarker 2 false 98 = true ∧ isScaleMarker 8 false 111 = true ∧ isScaleMarker 16 false 104 = true ∧
+    isScaleMarker 2 true 112 = true :=
+  sci_markers_accepted B upper
+
+/-- **`{:e}` / `{:E}` then parse**: `LowerExp`/`UpperExp` text of every base 2..36 parses back to the value
+    shown — without a precision to the printed float itself -/
+theorem lower_upper_exp_parse_back (W : Nat) (hW : 36 < 2 ^ W) (B : Nat) (hB : validRadix B = true) (m : Mode)
+    (prec : Option Nat) (upper plus : Bool) (r : FRepr)
+    (hlo : -(2 ^ 63 : Int) ≤ sciExp B m prec upper false r) (hhi : sciExp B m prec upper false r < (2 ^ 63 : Int)) :
+    ∃ (r' : FRepr) (n : Nat),
+      fromStrNative W B (fmtSci B m { plus := plus } prec upper r) = .ok (r', n) ∧
+      r'.toRat B = sciShown B m prec false r ∧ (prec = none → r'.toRat B = r.toRat B) := by
+  obtain ⟨r', n, h1, h2, h3, _⟩ := scientific_print_parse W hW B hB m prec upper false (fun h => by cases h) _
+    (sci_markers_accepted B upper).1 plus r hlo hhi
+  exact ⟨r', n, h1, h2, h3⟩
+
+/-- **`{:b}` / `{:o}` / `{:x}` / `{:X}` then parse** (`Binary` of base 2, `Octal` of base 8, the hexadecimal
+    traits of base 16, and of base 2 in the form `0xh.hhp±e`): whatever `fmtRadixTrait` prints parses back,
+    in the same base, to the value shown -/
+theorem radix_trait_parse_back (W : Nat) (hW : 36 < 2 ^ W) (B : Nat) (m : Mode) (prec : Option Nat) (k : String)
+    (plus : Bool) (r : FRepr) (t : List Nat) (h : fmtRadixTrait B m { plus := plus } prec k r = some t)
+    (hE : ∀ up hex, -(2 ^ 63 : Int) ≤ sciExp B m prec up hex r ∧ sciExp B m prec up hex r < (2 ^ 63 : Int)) :
+    ∃ (r' : FRepr) (n : Nat) (hex : Bool), fromStrNative W B t = .ok (r', n) ∧
+      r'.toRat B = sciShown B m prec hex r ∧ (prec = none → r'.toRat B = r.toRat B) := by
+  have key : ∀ (B : Nat) (hB : validRadix B = true) (up hex : Bool) (hhex : hex = true → B = 2) (mk : Nat)
+      (hmk : isScaleMarker B hex mk = true)
+      (hE : ∀ up hex, -(2 ^ 63 : Int) ≤ sciExp B m prec up hex r ∧ sciExp B m prec up hex r < (2 ^ 63 : Int)),
+      ∃ (r' : FRepr) (n : Nat) (hex' : Bool),
+        fromStrNative W B (fmtSciG B m { plus := plus } prec up hex mk r) = .ok (r', n) ∧
+        r'.toRat B = sciShown B m prec hex' r ∧ (prec = none → r'.toRat B = r.toRat B) := by
+    intro B hB up hex hhex mk hmk hE
+    obtain ⟨r', n, h1, h2, h3, _⟩ := scientific_print_parse W hW B hB m prec up hex hhex mk hmk plus r
+      (hE up hex).1 (hE up hex).2
+    exact ⟨r', n, hex, h1, h2, h3⟩
+  unfold fmtRadixTrait at h
+  split at h <;> (try cases h)
+  · exact key 2 (by decide) false false (fun h => by cases h) 98 (by decide) hE
+  · exact key 8 (by decide) false false (fun h => by cases h) 111 (by decide) hE
+  · exact key 16 (by decide) false false (fun h => by cases h) 104 (by decide) hE
+  · exact key 16 (by decide) true false (fun h => by cases h) 104 (by decide) hE
+  · exact key 2 (by decide) false true (fun _ => rfl) 112 (by decide) hE
+  · exact key 2 (by decide) true true (fun _ => rfl) 112 (by decide) hE
+
+/-- **the executable rounding specification meets the relational one**: `roundInt m (N / D)` (the
+    definition of the six modes over `Rat` that `displaySpec` and `specRound` execute) is the integer
+    `ModeSpec m N D` names, for all integers `N`, `D > 0` … -/
+theorem round_int_meets_mode_spec (m : Mode) (N D : Int) (hD : 0 < D) :
+    Dashu.Model.Float.ModeSpec m N D (roundInt m ((N : ℚ) / (D : ℚ))) :=
+  roundInt_modeSpec m N D hD
+
+/-- … and `ModeSpec` names exactly one integer -/
+theorem mode_spec_unique (m : Mode) (N D R R' : Int) (hD : 0 < D)
+    (h : Dashu.Model.Float.ModeSpec m N D R) (h' : Dashu.Model.Float.ModeSpec m N D R') : R = R' :=
+  modeSpec_unique m N D R R' hD h h'
+
+/-- **`displaySpec` ↔ `ModeSpec`**: the executable specification of `{:.k}` — compared with the model's text
+    on every Display case of the correspondence run — rounds `x · B^k` to exactly the integer
+    `R = precRounded` that `fmt_round` prints (`print_precision_text`) and that `ModeSpec` names
+    (`print_precision_rounding`); its text is the sign of the number followed by the fixed-point text of
+    `|R|` with `k` fractional digits -/
+theorem display_spec_rounds_like_model (B : Nat) (hB : 2 ≤ B) (m : Mode) (plus : Bool) (k : Nat) (r : FRepr) :
+    roundInt m (ratOfRepr B r * ((B ^ k : Nat) : ℚ)) = precRounded B m k r ∧
+    displaySpec B m plus (some k) r =
+      (if r.signif < 0 then [45] else if plus then [43] else []) ++
+        fixedPointText B (precRounded B m k r).natAbs k :=
+  ⟨roundInt_eq_precRounded B hB m k r, displaySpec_some B hB m plus k r⟩
+
+
+/-- `with_precision(p)`, `p ≥ 1`, applied to a float of larger (or unlimited) precision never returns more
+    than `p` digits (no digit beyond the target precision) -/
+theorem with_precision_digits (B : Nat) (hB : 2 ≤ B) (m : Mode) (p : Nat) (hp : 1 ≤ p) (x : FBigM)
+    (h : x.prec > p ∨ x.prec = 0) : (fWithPrecision B m coarseNone x p).1.repr.digits B ≤ p := by
+  unfold fWithPrecision
+  have hc : x.prec > p ∨ (x.prec = 0 ∧ p > 0) := by
+    rcases h with h | h
+    · exact Or.inl h
+    · exact Or.inr ⟨h, by omega⟩
+  simp only [hc, if_true]
+  exact reprRound_digits_le B hB m coarseNone p hp x.repr
+
+/-- **Tie A (regenerated from float/src/parse.rs)**: the scale markers of the model ARE the characters
+    `let scale_pos = match B { .. }` searches for, and the prefix test IS `starts_with("0x") || starts_with("0X")`
+    (`Dashu/Gen/FloatText.lean`, rewritten from /repo on every run) -/
+theorem scale_markers_regenerated (B : Nat) (hp : Bool) (c : Nat) (src : List Nat) :
+    (isScaleMarker B hp c = true ↔ c ∈ Dashu.Gen.float_scaleMarkers B hp) ∧
+    hasHexPrefix src = Dashu.Gen.float_hexPrefixes.any (fun p => src.take p.length == p) :=
+  ⟨isScaleMarker_eq_gen B hp c, hasHexPrefix_eq_gen src⟩
+
+/-- **Tie A (regenerated from float/src/fmt.rs)**: `LowerExp`/`UpperExp` print the regenerated marker
+    (`match B { 10 => Some('e'|'E'), _ => None }`, `unwrap_or('@')`); every row `(base, Trait, upper, hex, marker)`
+    of `impl_fmt_with_base!` is executed by the model as `fmt_round_scientific(upper, hex, marker)`, and the
+    model implements no other (trait, base) pair -/
+theorem fmt_trait_table_regenerated (B : Nat) (m : Mode) (f : FmtSpec) (prec : Option Nat) (r : FRepr) :
+    (∀ upper, fmtSci B m f prec upper r = fmtSciG B m f prec upper false (Dashu.Gen.float_expMarker B upper) r) ∧
+    (∀ row ∈ Dashu.Gen.float_fmtWithBase,
+      fmtRadixTrait row.1 m f prec (traitKind row.2.1) r =
+        some (fmtSciG row.1 m f prec row.2.2.1 row.2.2.2.1 row.2.2.2.2 r)) ∧
+    (∀ k t, fmtRadixTrait B m f prec k r = some t →
+      ∃ row ∈ Dashu.Gen.float_fmtWithBase, row.1 = B ∧ traitKind row.2.1 = k ∧
+        t = fmtSciG B m f prec row.2.2.1 row.2.2.2.1 row.2.2.2.2 r) :=
+  ⟨fun upper => fmtSci_marker_gen B m f prec upper r, fmtRadixTrait_rows m f prec r,
+    fun k t h => fmtRadixTrait_only B m f prec k r t h⟩
+
+
+/-- **zero-padded scientific text, read back**: with the zero flag (right or default alignment, any width, with
+    or without `+`) — or without a width — the text parses back to exactly the value shown; the padding zeros
+    stand behind sign / `0x` and only lengthen the integer digits -/
+theorem padded_scientific_print_parse (W : Nat) (hW : 36 < 2 ^ W) (B : Nat) (hB : validRadix B = true) (m : Mode)
+    (prec : Option Nat) (upper useHex : Bool) (hhex : useHex = true → B = 2) (marker : Nat)
+    (hmk : isScaleMarker B useHex marker = true) (f : FmtSpec)
+    (hf : (f.zero = true ∧ (f.align = some .right ∨ f.align = none)) ∨ f.width = none) (r : FRepr)
+    (hlo : -(2 ^ 63 : Int) ≤ sciExp B m prec upper useHex r) (hhi : sciExp B m prec upper useHex r < (2 ^ 63 : Int)) :
+    ∃ (r' : FRepr) (n : Nat),
+      fromStrNative W B (fmtSciG B m f prec upper useHex marker r) = .ok (r', n) ∧
+      r'.toRat B = sciShown B m prec useHex r :=
+  fmtSciG_parse_padded W hW B hB m prec upper useHex hhex marker hmk f hf r hlo hhi
+
+/-- **`with_base::<NewB>()`** (and its forms `to_decimal` = `with_rounding::<HalfAway>().with_base::<10>()`,
+    `to_binary` = `with_rounding::<Zero>().with_base::<2>()`): `with_base_and_precision` at the derived precision
+    `q = withBasePrecision` — whenever it returns without going through `ln`/`exp`, the result is the exact value
+    rounded to `q` digits under the contract and has at most `q + 1` digits; for bases that are not powers of
+    one another `q` is the documented maximum (`NewB^q ≤ B^p < NewB^(q+1)`) -/
+theorem with_base_contract (W B NB : Nat) (hB : 2 ≤ B) (hNB : 2 ≤ NB) (m : Mode) (p : Nat) (r : FRepr)
+    (hq : 1 ≤ withBasePrecision W B NB p) (res : Rounded FRepr)
+    (h : convertBase W B NB m (withBasePrecision W B NB p) r = .ok res) :
+    Contract NB m (withBasePrecision W B NB p) (r.toRat B) (res.1.toRat NB) res.2 ∧
+    res.1.digits NB ≤ withBasePrecision W B NB p + 1 ∧
+    (ilogExact B NB ≤ 1 → ilogExact NB B ≤ 1 →
+      NB ^ withBasePrecision W B NB p ≤ B ^ p ∧ B ^ p < NB ^ (withBasePrecision W B NB p + 1)) :=
+  ⟨convertBase_contract W B NB hB hNB m _ hq r res h, convertBase_digits_le_all W B NB hB hNB m _ hq r res h,
+    fun h1 h2 => with_base_precision_model W B NB p (by omega) hNB h1 h2⟩
+
+
+/-- **the text `Display` prints IS the specification text** (no width; with or without `+` and precision):
+    `fmt_round` = `displaySpec` — without a precision the exact positional expansion of the value (digits of
+    `|signif| · B^exp` resp. of `|signif|` with `−exp` fractional positions), with precision `k` the sign of the
+    number and the fixed-point text, `k` fractional digits, of `roundInt m (x · B^k)` (the value rounded under
+    the mode, `round_int_meets_mode_spec`).  Hypothesis: zero is written with exponent 0 (true of every
+    normalised repr, i.e. of everything `Repr::new` returns).  This turns the run-time comparison of the two
+    texts in the driver (`f.fmt disp` without width) into a theorem. -/
+theorem display_text_is_spec (B : Nat) (hB : 2 ≤ B) (m : Mode) (plus : Bool) (prec : Option Nat) (r : FRepr)
+    (hz : r.signif = 0 → r.exp = 0) :
+    fmtRound B m { plus := plus } prec r = displaySpec B m plus prec r :=
+  display_text_eq_spec B hB m plus prec r hz
+
+
 -- non-vacuity
 example : ilogExact 16 2 = 4 ∧ ilogExact 8 2 = 3 ∧ ilogExact 10 2 = 0 ∧ ilogExact 36 6 = 2 := by decide
 example : (2 : Nat) ≤ 10 ∧ (1 : Nat) ≤ 53 := by decide
@@ -410,7 +592,7 @@ example := grammar_digit_string 16 [49, 95, 102] false
 example := convert_base_long_dividend_contract 2 (by decide) .halfEven 3 (by decide) ⟨12345, 0⟩ ⟨5, 0⟩ (by decide) (by decide)
 example := convert_base_exact_paths_contract 64 2 16 (by decide) (by decide) .zero 10 (by decide) ⟨5, -3⟩ _
   (convert_base_pow_up_branch 64 2 16 .zero 10 ⟨5, -3⟩ (by decide) (by decide))
-example := convert_base_result_digits 64 2 16 (by decide) (by decide) (by decide) .zero 10 (by decide) ⟨5, -3⟩ _
+example := convert_base_result_digits 64 2 16 (by decide) (by decide) .zero 10 (by decide) ⟨5, -3⟩ _
   (convert_base_pow_up_branch 64 2 16 .zero 10 ⟨5, -3⟩ (by decide) (by decide))
 example := with_base_precision_model 64 10 2 17 (by decide) (by decide) (by decide) (by decide)
 example := display_width_exact 10 (by decide) .halfEven { width := some 12, align := some .center, fill := [42] } (some 2)
@@ -421,5 +603,30 @@ example := scientific_text_denotes 2 (by decide) .up (some 1) true true (fun _ =
 -- 9.9951e1 rounded to 3 significant digits carries into a new digit: the printed pair is (100, 0), value 1.00e2
 example : sciRounded 10 .halfEven 2 false ⟨99951, -3⟩ = 1000 ∧ sciShift 10 2 false ⟨99951, -3⟩ = 2 ∧
     sciPair 10 .halfEven (some 2) false ⟨99951, -3⟩ = (100, 0) := by decide
+-- 9.9951e1 printed with `{:+.2e}` is `+1.00e2`; the printed exponent is an isize; it parses back to 100
+example : fmtSciG 10 .halfEven { plus := true } (some 2) false false 101 ⟨99951, -3⟩ = [43, 49, 46, 48, 48, 101, 50] := by decide +kernel
+example := scientific_print_parse 64 (by decide) 10 (by decide) .halfEven (some 2) false false (fun h => by cases h) 101
+  (by decide) true ⟨99951, -3⟩ (by decide +kernel) (by decide +kernel)
+example := scientific_print_parse 64 (by decide) 2 (by decide) .up none true true (fun _ => rfl) 112
+  (by decide) false ⟨-0x1ff, 3⟩ (by decide +kernel) (by decide +kernel)
+example := lower_upper_exp_parse_back 64 (by decide) 36 (by decide) .away (some 1) true false ⟨-(36 ^ 5 + 1), -25⟩
+  (by decide +kernel) (by decide +kernel)
+example := radix_trait_parse_back 64 (by decide) 2 .zero (some 1) "uhex" true ⟨0x1ff, 3⟩ _ rfl
+  (fun up hex => by cases up <;> cases hex <;> decide +kernel)
+example := round_int_meets_mode_spec .halfEven (-7) 2 (by decide)
+example := display_text_is_spec 10 (by decide) .halfEven true (some 2) ⟨-12345, -3⟩ (by decide)
+example := display_text_is_spec 10 (by decide) .up false none ⟨0, 0⟩ (by decide)
+example := padded_scientific_print_parse 64 (by decide) 10 (by decide) .halfEven (some 2) false false (fun h => by cases h) 101
+  (by decide) { zero := true, width := some 12, plus := true } (Or.inl ⟨rfl, Or.inr rfl⟩) ⟨99951, -3⟩ (by decide +kernel) (by decide +kernel)
+example := with_base_contract 64 2 16 (by decide) (by decide) .zero 40 ⟨5, -3⟩ (by decide) _
+  (convert_base_pow_up_branch 64 2 16 .zero _ ⟨5, -3⟩ (by decide) (by decide))
+-- 12345 in base 10 brought to precision 2 in the same base: 12000, rounded down
+example : (reprRound 10 .zero coarseNone 2 (FRepr.new 10 12345 0)).1 = ⟨12, 3⟩ := by decide +kernel
+example := convert_base_same_base 64 10 .zero 2 ⟨12345, 0⟩
+example := with_precision_digits 10 (by decide) .halfEven 3 (by decide) ⟨⟨-12345, -2⟩, 5⟩ (Or.inl (by decide))
+example : (112 : Nat) ∈ Dashu.Gen.float_scaleMarkers 2 true ∧ (2, "LowerHex", false, true, 112) ∈ Dashu.Gen.float_fmtWithBase := by decide
+example := mode_spec_unique .halfAway 5 2 _ _ (by decide) (round_int_meets_mode_spec .halfAway 5 2 (by decide))
+  (round_int_meets_mode_spec .halfAway 5 2 (by decide))
+example := display_spec_rounds_like_model 10 (by decide) .halfEven true 2 ⟨-12345, -3⟩
 
 end Dashu.Props.C08
